@@ -136,6 +136,10 @@ class Machine(Interp):
         if kind == "module":
             return ModRef(r[1])
         if kind == "external":
+            from . import lib
+
+            if r[1] in lib.CONSTANTS:
+                return lib.CONSTANTS[r[1]](self)
             return ExtRef(r[1])
         raise Unsupported("resolution %r" % (r,), node)
 
@@ -642,6 +646,9 @@ class Machine(Interp):
                     return self.eval(a, Env(c.module, {}, [], None, c))
                 if o.cls.is_dataclass:
                     pass
+            if o.from_decl:
+                # the contract's declaration of this input does not cover the field: undecided, not a violation
+                raise Unsupported("field %s.%s is read but not declared in the contract's class declaration" % (o.clsname(), name), node)
             raise PyRaise("AttributeError", node, msg="%s.%s" % (o.clsname(), name))
         if isinstance(o, Namespace):
             if name in o.d:
@@ -1408,6 +1415,8 @@ class Machine(Interp):
                 raise Unsupported("isinstance on abstract collaborator", node)
             return False
         k = self.kind_of(v)
+        if isinstance(v, NanReal):
+            k = "real"  # a float (possibly NaN)
         if name == "int":
             return k in ("int", "bool")
         if name == "float":
